@@ -131,7 +131,10 @@ theorem decodeO_er (C : CodecNew) (o : DecO) (inp : Fec.Bytes) (hs : o.dec.sets 
                     o.dec.sets),
                 newest := newestAfter o.dec.n o.dec.sets.isEmpty (seqid inp / u32 o.dec.n) o.dec.newest },
         recovered := if decide (((erS set).pkts ++ [inp]).length ≥ o.dec.d) = true
-          then recover { o.dec with tune := o.dec.tune.sample (flag inp == typeData) (seqid inp) } ((erS set).pkts ++ [inp]) else [] } := by
+          then recover { o.dec with tune := o.dec.tune.sample (flag inp == typeData) (seqid inp) } ((erS set).pkts ++ [inp]) else [],
+        panic := decide (inp.length > mtuLimit) ||
+          (decide (((erS set).pkts ++ [inp]).length ≥ o.dec.d) &&
+            recoverPanics { o.dec with tune := o.dec.tune.sample (flag inp == typeData) (seqid inp) } ((erS set).pkts ++ [inp])) } := by
     unfold Decoder.decode; simp only []; rw [if_neg c1, if_neg c2, if_neg c3, hlk, hany, if_neg c4]; rfl
   have hsets_full : ∀ g, (o.dec.decode C inp).st.sets = erSets (discardO o.dec.n (newestAfter o.dec.n o.sets.isEmpty (seqid inp / u32 o.dec.n) o.dec.newest)
       (storeO { id := seqid inp / u32 o.dec.n, pkts := [] } o.sets) g).sets ∨
@@ -144,17 +147,16 @@ theorem decodeO_er (C : CodecNew) (o : DecO) (inp : Fec.Bytes) (hs : o.dec.sets 
       rw [hlen, if_pos (decide_eq_true hf), hemp, hs]
       rw [← discard_er _ _ _ g, ← store_er]; rfl
     · right; exact hf
-  have hp : (o.dec.decode C inp).panic = false := by rw [hm]
   split
   · rename_i hf
     have hS := fun g => (hsets_full g).resolve_right (fun hn => hn hf)
     split
-    · exact ⟨rfl, rfl, hp.symm, hS _⟩
+    · exact ⟨rfl, rfl, rfl, hS _⟩
     · split
-      · exact ⟨rfl, rfl, hp.symm, hS _⟩
-      · exact ⟨rfl, rfl, hp.symm, hS _⟩
+      · exact ⟨rfl, rfl, rfl, hS _⟩
+      · exact ⟨rfl, rfl, rfl, hS _⟩
   · rename_i hf
-    refine ⟨rfl, rfl, hp.symm, ?_⟩
+    refine ⟨rfl, rfl, rfl, ?_⟩
     rw [hm]
     show Fec.discard _ _ (store _ o.dec.sets) = _
     rw [hlen, if_neg (fun h => hf (of_decide_eq_true h)), hemp, hs, hpl]
